@@ -112,7 +112,7 @@ def ob_call(report):
 
 
 def ob_allow_list(report):
-    def body(ob):
+    def run_size(ob, nlist, tot):
         a, b, sender = z3.BitVec('peer_a', 256), z3.BitVec('peer_b', 256), z3.BitVec('sender', 256)
 
         def m_peer_id(ex, p, call, k):
@@ -136,6 +136,18 @@ def ob_allow_list(report):
                 return k(p, z3.Or([key == e for e in s.get_ov('elements').fields]))
             return NotImplemented
 
+        def m_size(ex, p, call, k):
+            s_ = ex.deref(p, call.args[0]) if isinstance(call.args[0], Ptr) else call.args[0]
+            el = s_.get_ov('elements') if isinstance(s_, Sym) else None
+            if el is None:
+                return NotImplemented
+            n_ = len(el.fields)
+            if call.short.endswith('is_empty'):
+                return k(p, z3.BoolVal(n_ == 0))
+            if n_ <= 1 or re.search(r'Vec', call.short):
+                return k(p, z3.BitVecVal(n_, 64))
+            return k(p, z3.If(el.fields[0] == el.fields[1], z3.BitVecVal(1, 64), z3.BitVecVal(2, 64)))       # sets hold distinct elements
+
         def m_collect(ex, p, call, k):
             src = call.args[0]
             el = None
@@ -153,7 +165,7 @@ def ob_allow_list(report):
                 return NotImplemented
             k(p, Sym(f'collected{p.seq("coll")}', call.retty).with_ov('elements', el))
         models = [(r'Request::peer_id$', m_peer_id), (r'as IntoResponse>::into_response$', m_into_response),
-                  (r'(HashSet|BTreeSet|Vec|slice)::contains$|HashSet::get$', m_contains),
+                  (r'(HashSet|BTreeSet|Vec|slice)::contains$|HashSet::get$', m_contains), (r'(HashSet|BTreeSet|Vec|slice)::(is_empty|len)$', m_size),
                   (r'as IntoIterator>::into_iter$|Iterator>::collect$|FromIterator>::from_iter$|Iterator>::copied$|Iterator>::cloned$', m_collect)]
         ex = e2.executor('anemo-tower', models, max_depth=4, unroll=80)
         new = find_method(ex.prog, 'AllowedPeers', 'new')
@@ -161,7 +173,8 @@ def ob_allow_list(report):
         outs = []
         p = Path()
         ex.results = []
-        arr = Agg('[]', None, (a, b), 'array')
+        elems = (a, b)[:nlist]
+        arr = Agg('[]', None, elems, 'array')
 
         def after_new(q, ap):
             q.mem[('H', 'ap', 'AllowedPeers')] = ap
@@ -175,7 +188,7 @@ def ob_allow_list(report):
                 return ob.done([ex], 'inconclusive', 'allow-list implementation iterates beyond the unrolling bound (hand-written membership loop): not decidable by this encoding', paths=len(outs))
             return viol(ob, [ex], f'AllowedPeers::{{new,authorize}} can {tag}', 'allow-abnormal', path_summary(bad[0]), len(outs))
         has = z3.Bool('has_sender')
-        member = z3.Or(sender == a, sender == b)
+        member = z3.Or([sender == e for e in elems]) if elems else z3.BoolVal(False)
         seen = set()
         SETOK = re.compile(r'(sort|sort_unstable|sort_by|sort_by_key|sort_unstable_by|sort_unstable_by_key|dedup|shrink_to_fit|reserve|with_capacity|new|len|is_empty|iter|contains|get|deref|deref_mut|as_slice|as_mut_slice|capacity|binary_search)$')
         for q, ret in outs:
@@ -208,7 +221,7 @@ def ob_allow_list(report):
             ex.queries += 1
             if qv != 'unsat':
                 cex = {'sender_present': z3.is_true(m.eval(has, True)), 'sender': '%064x' % m.eval(sender, True).as_long(),
-                       'list': ['%064x' % m.eval(a, True).as_long(), '%064x' % m.eval(b, True).as_long()],
+                       'list': ['%064x' % m.eval(e_, True).as_long() for e_ in elems],
                        'listed': z3.is_true(m.eval(member, True)), 'outcome': cls} if m is not None else {}
                 o = viol(ob, [ex], f'allow-list outcome `{cls}` outside its condition: {cex}', f'allow-{cls}', {'counterexample': cex, **path_summary(r)}, len(outs))
                 if cex:
@@ -217,11 +230,22 @@ def ob_allow_list(report):
                                           {'VERIF_CEX_LIST': ','.join(cex['list']), 'VERIF_CEX_SENDER': cex['sender'] if cex['sender_present'] else ''}, 'allow-list and sender')
                 return o
             seen.add(cls)
-        if seen != {'accept', 'no-identity', 'unlisted'}:
-            return ob.done([ex], 'inconclusive', f'vacuity: {seen}', paths=len(outs))
-        ob.done([ex], 'held', '', {'paths': len(outs), 'list': '[a, b] symbolic 256-bit ids'}, paths=len(outs))
-    return guarded(report, 'allow_list_exact', 'AllowedPeers::new([a,b]).authorize(req): Ok iff the authenticated sender is a or b; NotFound for any other sender; InternalServerError without a sender identity',
-                   ['AllowedPeers::new', 'AllowedPeers::authorize'], {'list_size': 2, 'ids': '256-bit symbolic (byte-addressable, big-endian)', 'containers': 'finite-set model (collect/contains/sort/dedup); hand-written scans executed, loop_unroll 80'}, body)
+        want_seen = {'accept', 'no-identity', 'unlisted'} if nlist else {'no-identity', 'unlisted'}
+        if seen != want_seen:
+            return ob.done([ex], 'inconclusive', f'vacuity (list of {nlist}): {seen}', paths=len(outs))
+        tot['paths'] += len(outs)
+        tot['exs'].append(ex)
+        return None
+
+    def body(ob):
+        tot = {'paths': 0, 'exs': []}
+        for nlist in (2, 1, 0):
+            o = run_size(ob, nlist, tot)
+            if o is not None:
+                return o
+        ob.done(tot['exs'], 'held', '', {'paths': tot['paths'], 'lists': '[], [a], [a, b] with symbolic 256-bit ids'}, paths=tot['paths'])
+    return guarded(report, 'allow_list_exact', 'AllowedPeers::new(L).authorize(req) for L = [], [a], [a,b]: Ok iff the authenticated sender is in L; NotFound for any other sender; InternalServerError without a sender identity',
+                   ['AllowedPeers::new', 'AllowedPeers::authorize'], {'list_size': '0, 1, 2', 'ids': '256-bit symbolic (byte-addressable, big-endian)', 'containers': 'finite-set model (collect/contains/sort/dedup); hand-written scans executed, loop_unroll 80'}, body)
 
 
 def ob_layer(report):
